@@ -121,3 +121,44 @@ func TString(t *ast.Type) string { panic("ghost") }
 //@ props C15
 //@ ensures[defaults-kept] forall(i, 0, len(args), args[i].DefaultValue != nil ==> i < len(result) && result[i] != nil && result[i].DefaultValue != nil)
 //@ end
+
+// ---- C15 "reported as a start-up error rather than altered" needs at least: rebuilding a schema from a (spec
+// compliant) answer does not panic. Safety-only contracts; slices of struct values are over-approximated. ----
+//@ func QueryerFactory
+//@ trusted callback supplied by the embedding application: returns a queryer
+//@ ensures result != nil
+//@ modifies-assumed fresh
+//@ end
+
+//@ extern github.com/vektah/gqlparser/v2/ast (*Schema).AddImplements
+//@ modifies-assumed s.Implements, entries(map[string][]*ast.Definition), elems(*ast.Definition), fresh
+//@ end
+
+//@ extern github.com/vektah/gqlparser/v2/ast (*Schema).AddPossibleType
+//@ modifies-assumed s.PossibleTypes, entries(map[string][]*ast.Definition), elems(*ast.Definition), fresh
+//@ end
+
+//@ func parseType
+//@ props C15
+//@ end
+
+//@ func parseInputField
+//@ props C15
+//@ ensures[nonnil] result != nil
+//@ end
+
+//@ func parseQueryerResponse
+//@ props C15
+//@ end
+
+//@ func introspectRemoteSchema
+//@ props C15
+//@ requires factory != nil
+//@ loop 0 invariant[maps] schema != nil && schema.Types != nil && schema.Directives != nil && forallT(k, string, has(schema.Types, k) ==> schema.Types[k] != nil)
+//@ loop 1 invariant[maps] schema != nil && schema.Types != nil && schema.Directives != nil && forallT(k, string, has(schema.Types, k) ==> schema.Types[k] != nil)
+//@ loop 2 invariant[maps] schema != nil && schema.Types != nil && schema.Directives != nil && forallT(k, string, has(schema.Types, k) ==> schema.Types[k] != nil)
+//@ loop 3 invariant[maps] schema != nil && schema.Types != nil && schema.Directives != nil && forallT(k, string, has(schema.Types, k) ==> schema.Types[k] != nil)
+//@ loop 4 invariant[maps] schema != nil && schema.Types != nil && schema.Directives != nil && forallT(k, string, has(schema.Types, k) ==> schema.Types[k] != nil)
+//@ loop 5 invariant[maps] schema != nil && schema.Types != nil && schema.Directives != nil && forallT(k, string, has(schema.Types, k) ==> schema.Types[k] != nil)
+//@ loop 6 invariant[maps] schema != nil && schema.Types != nil && schema.Directives != nil && forallT(k, string, has(schema.Types, k) ==> schema.Types[k] != nil)
+//@ end
